@@ -410,6 +410,41 @@ def stream_rounds(chk, fnd, bins, model, names, cases):
     chk.cov["disagreements_checked"] += ndis
 
 
+LAZY_CASES = [
+    # (program, final pre-pass values by item: hex | ? unknown | o other (boolean), why)
+    ("c = 1 == 1 ? 5 : c\n", ["5"], "self-reference in the branch that is not taken"),
+    ("c = 1 == 2 ? 5 : c\n", ["?"], "self-reference in the branch that is taken"),
+    ("a = 1 == 1 || a\n", ["o"], "lazy or decided by its left operand"),
+    ("b = 1 == 2 && b\n", ["o"], "lazy and decided by its left operand"),
+    ("a = 1 == 2 || a\n", ["?"], "lazy or that needs its right operand"),
+    ("k = 1 == 1 ? j : k\nj = 7\n", ["7", "7"], "taken branch reads a later constant, untaken one reads itself"),
+    ("a = b\nb = a\n", ["?", "?"], "two-cycle"),
+    ("a = b + 1\nb = c + 1\nc = a + 1\nd = 4\ne = d + a\n", ["?", "?", "?", "4", "?"], "three-cycle and a constant depending on it"),
+]
+
+
+def stream_lazy(chk, fnd, bins):
+    """cycles and self-reference under the lazy operators (outside the model's strict language): the implementation's
+    pre-pass must stop within n+1 rounds in a table where one more round changes nothing, with the least-fixed-point
+    values written out above"""
+    lines = ["R\t%s\t%s" % (opt, vlib.hx(t)) for (t, _, _) in LAZY_CASES for opt in ("1", "0")]
+    res = vlib.run_lines([bins["debug"] + "/symbols"], lines)
+    for i, ans in enumerate(res):
+        text, want, why = LAZY_CASES[i // 2]
+        f = ans.split("\t")
+        rounds = f[1].split("|") if f[0] == "OK" and len(f) > 1 else []
+        final = rounds[-1].split(":")[1].split(",") if rounds else None
+        n = len(want)
+        stable = len(rounds) >= 2 and rounds[-1] == rounds[-2] or (len(rounds) == 1 and rounds[0].split(":")[0] == "0")
+        if final != want or len(rounds) > n + 1 or not stable:
+            fnd.add("rounds-lazy", "pre-pass on %s: %s, expected final %s within %d rounds" % (why, ans, ",".join(want), n + 1),
+                    {"kind": "rounds", "stream": "lazy", "program": text, "static": i % 2 == 0, "impl": ans,
+                     "expected_final": ",".join(want), "rounds_allowed": n + 1})
+        chk.nontriv(("lz", text))
+    chk.count("lazy", len(lines))
+    chk.cov["traces_validated_against_impl"] += len(lines)
+
+
 def any_forward(nodes):
     seen = set()
     for n in nodes:
@@ -674,6 +709,7 @@ def run(chk):
     stream_program(chk, fnd, bins, model, names, 400 if quick else 3000, 40 if quick else 80)
     cases = chain_cases(chk.rng.fork("chain"), 2000 if quick else 15000)
     stream_rounds(chk, fnd, bins, model, names, cases)
+    stream_lazy(chk, fnd, bins)
     stream_chain(chk, fnd, bins, model, names, cases)
     stream_order(chk, fnd, bins, model, names, 800 if quick else 6000)
     stream_cond(chk, fnd, bins, model, names, 3000 if quick else 25000)
